@@ -13,7 +13,7 @@ From LP Require Import Scalar MPoly Bounds.
 Set Warnings "-notation-overridden,-ambiguous-paths".
 From mathcomp Require Import all_ssreflect all_algebra.
 Set Warnings "notation-overridden,ambiguous-paths".
-From LP Require Import BoundsProofs.
+From LP Require Import BoundsProofs BoundsCanon.
 Import Order.Theory GRing.Theory Num.Theory.
 Local Open Scope ring_scope.
 
@@ -94,26 +94,35 @@ Theorem C16_fm_sound : forall (R : realFieldType) sgnM ord p1 c1 p2 c2 R0 cR0 A0
 Proof. exact: C16_fm_sound_pf. Qed.
 Print Assumptions C16_fm_sound.
 
-(* 6. The resolvent is free of the eliminated variable.  PARTIAL: proved semantically - the value of R does not
-      depend on the top variable x, in every ordered field, provided the reported signs are realised by some point
-      (the model itself is one).  The syntactic statement is kept below; the correspondence checks it on every
-      case (`mp_degree x R = 0` on the implementation's and on the model's output). *)
-Theorem C16_fm_eliminates_partial : forall (R : realFieldType) sgnM ord p1 c1 p2 c2 R0 cR0 A0 x,
+(* 6. The resolvent is free of the eliminated variable: the top variable x does not occur in R (and R is in
+      canonical form), provided the reported signs are realised by some point of some ordered field - the model
+      itself is one, and it may be irrational.  Proved through faithfulness of the canonical form
+      (BoundsCanon.v: a canonical polynomial that vanishes at every rational point is the empty list). *)
+Theorem C16_fm_eliminates : forall (R : realFieldType) sgnM ord p1 c1 p2 c2 R0 cR0 A0 x,
   mp_wf p1 = true -> mp_wf p2 = true ->
   let r := resolve_fm sgnM ord p1 c1 p2 c2 R0 cR0 A0 in
   fm_ok r = true -> bd_top_var ord p1 = Some x ->
   (exists rho0 : var -> R, assum_ok sgnM rho0 (fm_assum r)) ->
-  forall (rho : var -> R) v, mp_evalR (upd rho x v) (fm_R r) = mp_evalR rho (fm_R r).
-Proof. exact: C16_fm_xindep_pf. Qed.
-Print Assumptions C16_fm_eliminates_partial.
+  mp_wf (fm_R r) = true /\ mp_degree x (fm_R r) = 0%num.
+Proof. exact: resolve_fm_xfree. Qed.
+Print Assumptions C16_fm_eliminates.
 
-Definition C16_fm_eliminates_full_statement : Prop :=
-  forall (R : realFieldType) sgnM ord p1 c1 p2 c2 R0 cR0 A0 x,
+(*    Semantic form: the value of R does not depend on x, in every ordered field. *)
+Theorem C16_fm_value_independent : forall (R R' : realFieldType) sgnM ord p1 c1 p2 c2 R0 cR0 A0 x,
   mp_wf p1 = true -> mp_wf p2 = true ->
   let r := resolve_fm sgnM ord p1 c1 p2 c2 R0 cR0 A0 in
   fm_ok r = true -> bd_top_var ord p1 = Some x ->
   (exists rho0 : var -> R, assum_ok sgnM rho0 (fm_assum r)) ->
-  mp_degree x (fm_R r) = 0%num.
+  forall (rho : var -> R') v, mp_evalR (upd rho x v) (fm_R r) = mp_evalR rho (fm_R r).
+Proof. exact: C16_fm_xindep_pf. Qed.
+Print Assumptions C16_fm_value_independent.
+
+(*    The tool behind 6, of independent use: if the value of a canonical polynomial does not depend on x at
+      rational points, x does not occur in it. *)
+Theorem C16_canonical_form_faithful : forall x p, mp_wf p = true ->
+  (forall (rho : var -> rat) v, mp_evalR (upd rho x v) p = mp_evalR rho p) -> mp_degree x p = 0%num.
+Proof. exact: xfree_of_indep. Qed.
+Print Assumptions C16_canonical_form_faithful.
 
 (* 7. The assumptions vector is only appended to. *)
 Theorem C16_fm_assumptions_kept : forall sgnM ord p1 c1 p2 c2 R0 cR0 A0 a,
